@@ -21,6 +21,8 @@ pub struct Sizes {
     pub g1: usize,
     pub g2_cap: u32,
     pub g3: Vec<usize>,
+    /// property-section sizes (v5): the section's own length prefix on a width boundary
+    pub g3p: Vec<usize>,
 }
 
 pub fn sizes(ctx: &Ctx, layer: &str) -> Sizes {
@@ -29,11 +31,15 @@ pub fn sizes(ctx: &Ctx, layer: &str) -> Sizes {
     for x in b {
         g3.extend_from_slice(&[x - 1, x, x + 1]);
     }
+    let mut g3p = vec![127usize, 128, 129, 130, 16_383, 16_384, 16_385, 16_386, 16_387];
+    if ctx.thorough {
+        g3p.extend_from_slice(&[2_097_151, 2_097_152, 2_097_153, 2_097_155, 2_097_156]);
+    }
     match layer {
-        "miri" => Sizes { g1: if ctx.thorough { 4000 } else { 160 }, g2_cap: 2, g3: vec![127, 128] },
-        "vg" => Sizes { g1: 1500, g2_cap: 8, g3: vec![127, 128, 16_383, 16_384] },
-        "asan" => Sizes { g1: if ctx.thorough { 400_000 } else { 20_000 }, g2_cap: 64, g3 },
-        _ => Sizes { g1: if ctx.thorough { 3_000_000 } else { 300_000 }, g2_cap: if ctx.thorough { u32::MAX } else { 4096 }, g3 },
+        "miri" => Sizes { g1: if ctx.thorough { 4000 } else { 160 }, g2_cap: 2, g3: vec![127, 128], g3p: vec![127, 128, 129] },
+        "vg" => Sizes { g1: 1500, g2_cap: 8, g3: vec![127, 128, 16_383, 16_384], g3p: vec![127, 128, 129, 16_384] },
+        "asan" => Sizes { g1: if ctx.thorough { 400_000 } else { 20_000 }, g2_cap: 64, g3, g3p },
+        _ => Sizes { g1: if ctx.thorough { 3_000_000 } else { 300_000 }, g2_cap: if ctx.thorough { u32::MAX } else { 4096 }, g3, g3p },
     }
 }
 
@@ -86,6 +92,20 @@ where
                 f(c, r, fam, &rp, &case);
             }
             c.countn(&format!("g1.{}", fam.n()), per as u64);
+            // G3: property-section size boundaries (v5)
+            if fam == Fam::V5 {
+                let ctxs = [1u8, CTX_WILL, 2, 3, 4, 5, 6, 7, 8, 9, 10, 11, 14, 15];
+                for (i, t) in sz.g3p.iter().enumerate() {
+                    for (j, pc) in ctxs.iter().enumerate() {
+                        if (i * ctxs.len() + j) % n == w {
+                            let rp = gen::gen_props_sized(r, *pc, *t);
+                            let case = valid_case(fam, &rp);
+                            f(c, r, fam, &rp, &case);
+                            c.count(&format!("g3.propsection={}", t));
+                        }
+                    }
+                }
+            }
             // G3: size boundaries
             for (i, t) in sz.g3.iter().enumerate() {
                 for shape in 0..3u8 {
